@@ -114,6 +114,14 @@ def handle (st : St) (args : List String) (impl : String) : St × Verdict :=
     match kvArg rest "archive_height", kvArg rest "fork_from" with
     | some _, some _ => (st, cmpModel "ok" impl)
     | _, _ => (st, .unknown)
+  | "tie" :: rest =>
+    -- equal-work headers / blocks delivered header-first (run `tie`): the answer demanded by the
+    -- property is `ok` (every one-view read of the header MMR consistent with the db header head,
+    -- state = sequential twin, restart and validation pass); the twin's deliveries, the states and
+    -- the restart go through the `chain` domain (`chain hdr` / `deliver` / `obs` / `reopen`)
+    match kvArg rest "round", kvArg rest "pairs" with
+    | some _, some _ => (st, cmpModel "ok" impl)
+    | _, _ => (st, .unknown)
   | "zipwin" :: rest =>
     -- install of a zipped state (`Chain::txhashset_write`) while readers hold one-view reads: the
     -- answer demanded by the property is `ok` (install replaced the state, every view consistent)
